@@ -403,6 +403,8 @@ impl<P: Payload> InitState<P> {
         let mut hash = [0; SALTED_NODE_ID_HASH_LEN];
         let rng = SystemRandom::new();
         rng.fill(&mut hash[0..4]).unwrap();
+        #[cfg(vpncloud_verif)]
+        verif::force_salt(&mut hash[0..4]);
         hash[4..].clone_from_slice(&node_id);
         let d = digest::digest(&digest::SHA256, &hash);
         hash[4..].clone_from_slice(&d.as_ref()[..16]);
